@@ -481,21 +481,38 @@ func child() int {
 		}
 	}
 
+	// once the connection ended or carried a malformed message the run has shown what it can show: no more waiting
+	over := func() bool {
+		select {
+		case <-eof:
+			return true
+		case <-badFrame:
+			return true
+		default:
+			return false
+		}
+	}
 	await := func(n int, limit time.Duration) bool {
 		dl := time.Now().Add(limit)
-		r.mu.Lock()
-		defer r.mu.Unlock()
-		for r.nq < n {
-			if time.Now().After(dl) {
+		for {
+			r.mu.Lock()
+			ok := r.nq >= n
+			r.mu.Unlock()
+			if ok {
+				return true
+			}
+			if time.Now().After(dl) || over() {
 				return false
 			}
-			r.mu.Unlock()
 			time.Sleep(5 * time.Millisecond)
-			r.mu.Lock()
 		}
-		return true
 	}
-
+	nap := func(d time.Duration) {
+		dl := time.Now().Add(d)
+		for time.Now().Before(dl) && !(over() && con != nil) {
+			time.Sleep(10 * time.Millisecond)
+		}
+	}
 	for _, st := range sc.Steps {
 		switch st.Op {
 		case "store":
@@ -509,7 +526,7 @@ func child() int {
 				r.add(Event{Ev: "AwaitTimeout", N: st.N})
 			}
 		case "sleep":
-			time.Sleep(time.Duration(st.Ms) * time.Millisecond)
+			nap(time.Duration(st.Ms) * time.Millisecond)
 		case "wait_eof":
 			// the spec says the server ends the connection by itself (e.g. after a database error): give it time
 			select {
